@@ -1130,7 +1130,7 @@ fn ref_action(a: &RAct, r: &RRoute, env: &Env) -> Vec<RRoute> {
         RAct::MedSet(v) => n.med = Some((*v).clamp(0, u32::MAX as i64) as u32),
         RAct::MedMod(d) => {
             let cur = n.med.unwrap_or(0) as i64;
-            let t = cur + d;
+            let t = cur.saturating_add(*d);
             if t < 0 || t > u32::MAX as i64 {
                 // out of range: clamping (rustybgp) and leaving the MED alone (GoBGP) are both accepted
                 let mut clamped = n.clone();
@@ -2245,6 +2245,11 @@ fn a5_space(level: u8) -> A5Space {
             vec![RAct::SetLp(200), RAct::CommAdd(vec![0x0002_0002]), RAct::MedMod(-20)],
             vec![RAct::CommRemove(vec![0x0001_0001])],
             vec![RAct::CommReplace(vec![0x0003_0003])],
+            // the API hands the MED operand through as an unvalidated 64-bit integer
+            vec![RAct::MedMod(i64::MAX)],
+            vec![RAct::MedMod(i64::MIN)],
+            vec![RAct::MedSet(i64::MAX)],
+            vec![RAct::MedSet(i64::MIN)],
             vec![RAct::NhSelf],
             vec![RAct::NhPeer],
             vec![RAct::NhUnchanged],
